@@ -33,6 +33,8 @@ def run_shard(ctx, prop):
     @ctx.settings(ctx.n(6400, 160000))
     @given(_tree.soup_case(max_lex))
     def t(case):
+        if _tree.exhausted():
+            return
         ctx.announce(slim(case))
         res = judge(ctx, case, prop)
         counter[0] += 1
@@ -74,7 +76,9 @@ def run_shard(ctx, prop):
     for name, n in passes_changed.items():
         ctx.labels["changed-by:" + name] = n
 
-    for bucket, f in list(ctx.failures.items())[:6]:
+    if _tree.exhausted():
+        ctx.inconclusive.append("shard %d stopped generating after 3 CPU overruns" % ctx.shard)
+    for bucket, f in [kv for kv in ctx.failures.items() if "hang" not in kv[0]][:6]:
         case = f["case"]
 
         def same(c, bucket=bucket):
